@@ -225,8 +225,12 @@ def run(ctx: Context) -> None:
         g = [norm_text(st.test) for st, inb in enclosing_ifs(dd, n) if inb]
         txt = ' '.join(g)
         ok_dd = (is_none(n.value) and norm_text(n.targets[0].value).endswith('.encoding')
-                 and "'_FillValue' not in variable.encoding" in txt and "'_FillValue' not in variable.attrs" in txt)
-    ctx.check('R17.4', ok_dd and len(sets) == 1, "_FillValue=None is set in the encoding only when neither encoding nor attrs define one", dd,
+                 and "'_FillValue' not in variable.encoding" in txt and "'_FillValue' not in variable.attrs" in txt
+                 and 'current_dtype == promoted_dtype' in txt)
+    prom = [n for n in ast.walk(dd.node) if isinstance(n, ast.Assign) and norm_text(n.targets[0]) == '(promoted_dtype, fill_value)']
+    cur = [n for n in ast.walk(dd.node) if isinstance(n, ast.Assign) and norm_text(n.targets[0]) == 'current_dtype']
+    ok_dd = ok_dd and len(prom) == 1 and norm_text(prom[0].value) == 'maybe_promote(current_dtype)' and len(cur) == 1 and norm_text(cur[0].value) == 'variable.dtype'
+    ctx.check('R17.4', ok_dd and len(sets) == 1, "_FillValue=None is set in the encoding exactly for variables whose dtype can hold its own missing value (maybe_promote leaves it unchanged: floats, datetimes, timedeltas - the ones xarray would give a default fill) and only when neither encoding nor attrs define one", dd,
               sets[0] if sets else dd.node)
     fu = ctx.func(f"{UTILS}.fix_time_units_for_ems")
     fuflow = ctx.flow(fu)
@@ -298,6 +302,7 @@ VARIANTS = [
     V('C17', 'fill-after-write', _U, "    disable_default_fill_value(dataset)\n\n    dataset.to_netcdf(path, **kwargs)", "    dataset.to_netcdf(path, **kwargs)\n    disable_default_fill_value(dataset)", 'R17.4'),
     V('C17', 'no-copy', _U, "    dataset = dataset.copy(deep=False)\n", "", 'R17.4'),
     V('C17', 'fill-overrides-attrs', _U, "            and \"_FillValue\" not in variable.attrs\n", "", 'R17.4'),
+    V('C17', 'fill-only-floats', _U, "            current_dtype == promoted_dtype\n", "            numpy.issubdtype(current_dtype, numpy.floating)\n", 'R17.4'),
     V('C17', 'time-fix-before-write', _U, "    dataset.to_netcdf(path, **kwargs)\n    if time_variable is not None:\n        fix_time_units_for_ems(path, data_array_to_name(dataset, time_variable))", "    if time_variable is not None:\n        fix_time_units_for_ems(path, data_array_to_name(dataset, time_variable))\n    dataset.to_netcdf(path, **kwargs)", 'R17.4'),
     V('C17', 'handler-narrowed', _B, "        try:\n            time_variable = self.time_coordinate\n        except KeyError:", "        try:\n            time_variable = self.time_coordinate\n        except ValueError:", 'R17.5'),
     V('C17', 'shoc-raises-keyerror', 'src/emsarray/conventions/shoc.py', "            raise NoSuchCoordinateError(\n                f\"SHOC dataset did not have expected time coordinate {name!r}\")\n\n    def drop_geometry", "            raise ValueError(\n                f\"SHOC dataset did not have expected time coordinate {name!r}\")\n\n    def drop_geometry", 'R17.5'),
